@@ -159,6 +159,9 @@ def fold(e, env):
             left = right
         return True
     if isinstance(e, ast.Call):
+        k = ' '.join(ast.unparse(e).split())
+        if k in env:
+            return env[k]
         d = dotted(e.func)
         if d in ('any', 'all') and len(e.args) == 1 and \
                 isinstance(e.args[0], (ast.GeneratorExp, ast.ListComp)) and \
